@@ -975,6 +975,65 @@ def r14o(ctx, rep, rule="R14o"):
     rep.floor(rule, "InvalidVectorIndex exits of the ranged vector procedures", n, 5)
 
 
+
+def r14q(ctx, rep, rule="R14q"):
+    """equal? is handed locations, not copies"""
+    facts = ctx["facts"]
+    rep.rule(rule, "identity needs the location: Vm::eqv answers 'same object' by comparing heap pointers — its own comment says that "
+             "this covers every symbol, symbols being interned — and has no arm for two symbol *values*. The walkers behind equal? "
+             "therefore hand the comparison what a pair or vector stores (the results of as_car / as_cdr / Vector::get, which are "
+             "pointers for everything kept in the heap) and never a copy fetched through the pointer with Heap::get / "
+             "get_at_index: a dereferenced symbol is equal to nothing, so (equal? '(1 . c) '(1 . c)) was #f.")
+    pre = "marwood::vm::compare::<impl marwood::vm::Vm>::"
+    n = 0
+    for nm in ("compare_pair", "compare_vector"):
+        f = need(rep, rule, facts, pre + nm)
+        if f is None:
+            continue
+        k = 0
+        for bb, t in f.calls():
+            c = callee(t) or ""
+            if not (c.endswith("::equal_seen") or c.endswith("::equal")):
+                continue
+            for ai in (1, 2):
+                if ai >= len(t["args"]):
+                    continue
+                k += 1
+                n += 1
+                key = "%s|%s|equal-arg#%d" % (rule, nm, k)
+                # every definition that can reach the argument
+                bad = []
+                seen, work = set(), [t["args"][ai]]
+                steps = 0
+                while work and steps < 60:
+                    steps += 1
+                    op = work.pop()
+                    pl = op_place(op)
+                    if pl is None:
+                        continue
+                    if (pl["l"], bool(pl["p"])) in seen:
+                        continue
+                    seen.add((pl["l"], bool(pl["p"])))
+                    for d in f.defs().get(pl["l"], []):
+                        if d[2] == "call":
+                            cc = callee(d[3]) or ""
+                            if cc.endswith(("heap::Heap::get", "heap::Heap::get_at_index")):
+                                bad.append(d[3]["loc"])
+                            elif cc.endswith(("::clone", "::deref", "::unwrap", "Try>::branch", "::borrow")) and d[3]["args"]:
+                                work.append(d[3]["args"][0])
+                        elif d[2] == "assign":
+                            rv = d[3]["rv"]
+                            if rv["k"] == "use":
+                                work.append(rv["a"])
+                            elif rv["k"] == "ref":
+                                work.append({"copy": rv["place"]})
+                (rep.ok if not bad else rep.fail)(
+                    rule, key, "%s hands equal? a stored reference" % nm if not bad else
+                    "%s hands equal? a value fetched with Heap::get / get_at_index: a symbol (or any atom kept in the heap) arrives as a "
+                    "copy without its location, and eqv — which knows a symbol only by its pointer — calls two copies of one symbol "
+                    "different" % nm, bad[:2])
+    rep.floor(rule, "arguments handed to equal? by the walkers", n, 6)
+
 def run(ctx, rep):
     r14a(ctx, rep)
     r14b(ctx, rep)
@@ -989,6 +1048,7 @@ def run(ctx, rep):
     r14l(ctx, rep)
     r14m(ctx, rep)
     r14o(ctx, rep)
+    r14q(ctx, rep)
     from . import popbalance
     popbalance.r_arity_table(ctx, rep, "R14n", R7RS_ARITY_C14, "the list and vector procedures C14 names")
     from .C15 import fresh_results
